@@ -28,7 +28,7 @@ def arr(*dims):
 
 def broadcast(a, b):
     """NumPy broadcasting of two abstract values."""
-    if a == UNKNOWN or b == UNKNOWN:
+    if a == UNKNOWN or b == UNKNOWN or a[0] == "dims" or b[0] == "dims":
         return UNKNOWN
     if a[0] == "shape" or b[0] == "shape":
         # arithmetic on the shape array itself (shape + 1.0, (shape - 1) / shape): a vector of length ndim
@@ -114,6 +114,34 @@ class ShapeInterp:
             return c
         return "?"
 
+    def dimlist(self, e):
+        """A Python list/tuple of dimension terms: a display, `[d] * k`, or a name bound to one."""
+        if isinstance(e, (ast.List, ast.Tuple)) and e.elts and not any(isinstance(x, ast.Starred) for x in e.elts):
+            ds = [self.dim_of_len(x) for x in e.elts]
+            return ds if "?" not in ds else None
+        if isinstance(e, ast.BinOp) and isinstance(e.op, ast.Mult):
+            for lst, k in ((e.left, e.right), (e.right, e.left)):
+                if isinstance(lst, (ast.List, ast.Tuple)):
+                    base, n = self.dimlist(lst), self.const(k)
+                    if base is not None and n is not None and 0 <= n <= 8:
+                        return base * n
+        if isinstance(e, ast.Name) and isinstance(self.env.get(e.id), tuple) and self.env[e.id][0] == "dims":
+            return list(self.env[e.id][1])
+        if isinstance(e, ast.Call) and norm(e.func) in ("tuple", "list") and len(e.args) == 1:
+            return self.dimlist(e.args[0])
+        return None
+
+    def reshape(self, v, target):
+        """Shape after reshaping ``v`` to the dimension list ``target`` -- accepted only when the
+        element count is visibly preserved (the same non-unit dimensions in the same order)."""
+        if v[0] != "arr":
+            return UNKNOWN
+        src = [d for d in v[1] if d != 1]
+        dst = [d for d in target if d != 1]
+        if src == dst and not any(isinstance(d, tuple) and d[0] in ("ravel", "kron") for d in src):
+            return arr(*target)
+        return UNKNOWN
+
     def ev(self, e):
         if isinstance(e, ast.Constant):
             return SCALAR if isinstance(e.value, (int, float, complex, bool)) else UNKNOWN
@@ -134,6 +162,9 @@ class ShapeInterp:
             return UNKNOWN
         if isinstance(e, ast.UnaryOp):
             return self.ev(e.operand)
+        dl = self.dimlist(e)
+        if dl is not None:
+            return ("dims", tuple(dl))
         if isinstance(e, ast.BinOp):
             a, b = self.ev(e.left), self.ev(e.right)
             r = broadcast(a, b)
@@ -234,6 +265,10 @@ class ShapeInterp:
             v = self.ev(e.func.value)
             if e.func.attr in ("ravel", "flatten") and v[0] == "arr":
                 return ("arr", (("ravel", v[1]),))
+            if e.func.attr == "reshape" and args:
+                tgt = self.dimlist(args[0]) if len(args) == 1 else self.dimlist(ast.Tuple(elts=list(args), ctx=ast.Load()))
+                if tgt is not None:
+                    return self.reshape(v, tgt)
             return UNKNOWN
         if fn == "np.einsum" and args and isinstance(args[0], ast.Constant) and isinstance(args[0].value, str):
             spec = args[0].value.replace(" ", "")
@@ -304,6 +339,15 @@ class ShapeInterp:
                     else:
                         self.consts.pop(t.id, None)
                     self.env[t.id] = v
+                elif isinstance(t, ast.Subscript) and isinstance(t.value, ast.Name) and \
+                        isinstance(self.env.get(t.value.id), tuple) and self.env[t.value.id][0] == "dims":
+                    k, d = self.const(t.slice), self.dim_of_len(s.value)
+                    ds = list(self.env[t.value.id][1])
+                    if k is not None and -len(ds) <= k < len(ds) and d != "?":
+                        ds[k] = d
+                        self.env[t.value.id] = ("dims", tuple(ds))
+                    else:
+                        self.env[t.value.id] = UNKNOWN
         elif isinstance(s, ast.AugAssign):
             if isinstance(s.target, ast.Name):
                 r = broadcast(self.ev(s.target), self.ev(s.value))
@@ -343,6 +387,15 @@ class ShapeInterp:
             self.helpers[s.name] = s
         elif isinstance(s, ast.Raise):
             return "stop"
+        elif isinstance(s, ast.For) and isinstance(s.target, ast.Name) and isinstance(s.iter, ast.Call) and \
+                norm(s.iter.func) == "range" and len(s.iter.args) == 1 and self.const(s.iter.args[0]) is not None \
+                and 0 <= self.const(s.iter.args[0]) <= 8 and not s.orelse:
+            # a loop over the (known) dimensionality is unrolled
+            for i in range(self.const(s.iter.args[0])):
+                self.consts[s.target.id] = i
+                self.env.pop(s.target.id, None)
+                if self.run(s.body) == "stop":
+                    return "stop"
         elif isinstance(s, (ast.For, ast.While)):
             self.run(s.body)
         elif isinstance(s, ast.Expr):
